@@ -317,6 +317,37 @@ if __name__ == "__main__":
         keep = [m for m in done if m.get("caught_by") or (len(sys.argv) > 3 and not m["file"].startswith(sys.argv[3]))]
         json.dump(keep, open(f"{ROOT}/phase2.json", "w"), indent=1)
         phase2(int(sys.argv[2]) if len(sys.argv) > 2 else 6)
+    elif cmd == "deepen":
+        # mutants caught so far only through a broken tie (no failing input): run the remaining checks until one produces a failing input
+        import queue, threading
+        done = {m["id"]: m for m in json.load(open(f"{ROOT}/phase2.json"))}
+        skip = set(sys.argv[3:])      # files edited in /repo since the mutants were generated (their byte offsets are stale)
+        todo = [m for m in done.values() if m.get("caught_by") and all("(no-input)" in c for c in m["caught_by"]) and not m.get("deepened") and m["file"] not in skip]
+        q = queue.Queue(); [q.put(m) for m in todo]
+        lock = threading.Lock()
+        def work(k):
+            while True:
+                try:
+                    m = q.get_nowait()
+                except queue.Empty:
+                    return
+                tried = {c.replace("(no-input)", "") for c in m["caught_by"]}
+                rest = [c for c in ordered_checks(m["file"]) if c not in tried]
+                wt = worktree(k); v = verif_copy(k)
+                found = None
+                for c in rest:
+                    got, _ = run_checks(k, m, checks=[c])
+                    if got:
+                        m["caught_by"].append(got[0])
+                        if "(no-input)" not in got[0]:
+                            found = got[0]; break
+                m["deepened"] = True
+                with lock:
+                    json.dump(list(done.values()), open(f"{ROOT}/phase2.json", "w"), indent=1)
+                    print(f"  {m['file']}:{m['line']} {m['kind']}: {' '.join(m['caught_by'])}", flush=True)
+        ts = [threading.Thread(target=work, args=(k,)) for k in range(int(sys.argv[2]) if len(sys.argv) > 2 else 6)]
+        [t.start() for t in ts]; [t.join() for t in ts]
+        write_tsv(list(done.values()))
     elif cmd == "tsv":
         write_tsv(json.load(open(f"{ROOT}/phase2.json")))
     elif cmd == "clean":
